@@ -171,6 +171,9 @@ PROPS['C02'].update(engines=[eng_c02.engine], extended=[eng_c02.engine], replaye
 PROPS['C20'].setdefault('engines', []).append(eng_c20.engine)
 PROPS['C20'].setdefault('extended', []).append(eng_c20.engine)
 PROPS['C20'].setdefault('replayers', []).append(eng_c20.replayer)
+PROPS['C12'].setdefault('engines', []).append(eng_c20.engine_c12)
+PROPS['C12'].setdefault('extended', []).append(eng_c20.engine_c12)
+PROPS['C12'].setdefault('replayers', []).append(eng_c20.replayer)
 PROPS['C17'].setdefault('engines', []).append(eng_c20.engine_c17)
 PROPS['C17'].setdefault('extended', []).append(eng_c20.engine_c17)
 PROPS['C17'].setdefault('replayers', []).append(eng_c20.replayer_c17)
